@@ -103,6 +103,15 @@ def item_selector_text(it, cfg):
         body = "{ %s <%s> %s }" % (s, it["pp"], o)
         # the query text is the user's: keyword case, the optional WHERE, what follows the variable (blank, tab, line break, brace)
         lay = it.get("sparqlLayout", "plain")
+        # prefixed names glued to an operator (no blank, brace or parenthesis before the prefix): an inverse path, a FILTER
+        pfx_p = _prefixed(it["pp"], cfg["nsDict"])
+        pfx_o = _prefixed(it["po"][1], cfg["nsDict"]) if it["po"][0] == "IRI" else None
+        if lay == "invpath" and pfx_p and it["ps"][0] == "FOCUS" and it["po"][0] == "IRI":
+            return "SPARQL \"select ?x where { <%s> ^%s ?x }\"" % (it["po"][1], pfx_p)
+        if lay == "filter" and pfx_o and it["ps"][0] == "FOCUS":
+            return "SPARQL \"select ?x where { ?x <%s> ?y FILTER(?y=%s) }\"" % (it["pp"], pfx_o)
+        if lay in ("invpath", "filter"):
+            lay = "plain"
         q = {"plain": "select ?x where " + body, "upper": "SELECT ?x WHERE " + body, "nowhere": "select ?x " + body,
              "brace": "SELECT ?x" + body, "tab": "select ?x\twhere " + body, "newline": "select ?x\nwhere " + body,
              "distinct": "select distinct ?x where " + body}[lay]
@@ -157,13 +166,20 @@ def shaper_kwargs(case, graph_kwargs=None):
         # a Turtle / RDF-XML text parsed by rdflib, or an rdflib Graph built by the caller
         ch = case.get("channel", "nt")
         T = M.from_json_graph(case["graph"])
-        if ch == "rdflib":
+        if case.get("rawText") is not None:        # the document as written by the caller (empty, comments only ...)
+            kw["raw_graph"] = case["rawText"]
+            kw["input_format"] = {"nt": C.NT, "turtle": C.TURTLE, "turtle_iter": C.TURTLE_ITER, "tsv_spo": C.TSV_SPO}[ch]
+        elif ch == "rdflib":
             kw["rdflib_graph"] = M.to_rdflib(T)
         elif ch in ("turtle", "xml"):
-            kw["raw_graph"] = M.to_rdflib(T).serialize(format=ch)
+            g = M.to_rdflib(T)
+            for pre, ns in case.get("docPrefixes", []):     # prefixes the document itself declares (they may clash with the user's labels)
+                g.bind(pre, ns, replace=True)
+            kw["raw_graph"] = g.serialize(format=ch)
             kw["input_format"] = C.TURTLE if ch == "turtle" else C.RDF_XML
         else:
-            kw["raw_graph"] = M.to_nt(T)
+            # (a document may start with a byte order mark: it belongs to no statement)
+            kw["raw_graph"] = ("\ufeff" if case.get("bom") else "") + M.to_nt(T)
             kw["input_format"] = C.NT
     else:
         kw.update(graph_kwargs)
@@ -367,6 +383,37 @@ def run_case(case, graph_kwargs=None, want_text=False):
                 gk["rdflib_graph"] = M.to_rdflib(M.from_json_graph(case["graph"]))
             else:
                 gk["graph_file_input"] = os.path.join(d, "g.nt")
+            return run_case(case, gk, want_text)
+        finally:
+            shutil.rmtree(d, ignore_errors=True)
+    if case.get("channel") in ("files", "zips") and graph_kwargs is None:
+        # the document cut into consecutive parts, one N-Triples file (or one zip archive) per part; the list names them in document
+        # order, which is NOT the alphabetical order of the file names
+        import tempfile
+        import shutil
+        import zipfile
+        from shexer import consts as C
+        T = M.from_json_graph(case["graph"])
+        k = max(2, min(case.get("parts", 3), len(T))) if T else 1
+        cuts = [round(i * len(T) / k) for i in range(k + 1)]
+        names = ["part_z", "part_b", "part_m", "part_a", "part_q"][:k]
+        d = tempfile.mkdtemp(prefix="shexer-verif-files-")
+        try:
+            paths = []
+            for i, name in enumerate(names):
+                text = M.to_nt(T[cuts[i]:cuts[i + 1]])
+                if case["channel"] == "zips":
+                    p = os.path.join(d, name + ".zip")
+                    with zipfile.ZipFile(p, "w") as z:
+                        z.writestr("m.nt", text)
+                else:
+                    p = os.path.join(d, name + ".nt")
+                    with open(p, "w", encoding="utf8") as fh:
+                        fh.write(text)
+                paths.append(p)
+            gk = {"graph_list_of_files_input": paths, "input_format": C.NT}
+            if case["channel"] == "zips":
+                gk["compression_mode"] = C.ZIP
             return run_case(case, gk, want_text)
         finally:
             shutil.rmtree(d, ignore_errors=True)
